@@ -1,36 +1,75 @@
 (* C09 - ENABLE_PEDANTIC switch: disabled decorators are identity; the switch is read at
-   decoration only.  Property theorems only.  `the_model` is assembled from Gen/EnvSwitch.v,
-   which translator/t_wrappers.py regenerates from /repo on every run: the body of is_enabled,
-   the literals assigned by enable_pedantic/disable_pedantic, which of the seven decorators
-   starts with the guard `if not is_enabled(): return <argument>`, and the list of EVERY
-   reference to is_enabled / os.environ / ENVIRONMENT_VARIABLE_NAME / getenv in the package.  *)
+   decoration only.  Property theorems only.  `the_model` is assembled from Gen/Env.v, which
+   translator/t_env.py regenerates from /repo on every run: the name of the variable, the body of
+   is_enabled, the literals assigned by enable_pedantic/disable_pedantic, which of the seven
+   decorators starts with the guard `if not is_enabled(): return <argument>`, what lies behind the
+   guards, and the list of EVERY reference to is_enabled / os.environ / ENVIRONMENT_VARIABLE_NAME /
+   getenv / the seven decorators themselves in the package.
+
+   Statement (properties.jsonl): "With ENABLE_PEDANTIC=0 (or after disable_pedantic()) at decoration
+   time, pedantic, pedantic_require_docstring, pedantic_class, pedantic_class_require_docstring,
+   trace_class, timer_class and for_all_methods return the very object they were given, unmodified,
+   and impose no checks; with the variable unset or set to 1 (or after enable_pedantic()) they check.
+   The switch is read only when a decorator is applied: toggling it afterwards never changes the
+   behaviour of already decorated callables."                                                      *)
 From Coq Require Import List Bool String Arith.
-From PV Require Import Base.Exn Model.EnvSwitch Spec.EnvSpec Proofs.EnvProofs Model.EnvEval Gen.EnvSwitch.
+From PV Require Import Base.Exn Model.EnvSwitch Spec.EnvSpec Proofs.EnvProofs Model.EnvEval Gen.Env.
 Import ListNotations.
 Open Scope list_scope.
 
 Definition M := the_model.
 
-(* translation obligation: the regenerated switch logic, guards and cross reference are the ones
-   the lemmas are proved for (finite, decided by computation) *)
+(* translation obligation: the regenerated switch logic, guards, enabled paths and cross reference are
+   the ones the lemmas are proved for (finite, decided by computation) *)
 Theorem C09_model_good : good M = true.
 Proof. vm_compute. reflexivity. Qed.
 Print Assumptions C09_model_good.
 
+(* the regenerated env_var_logic.py: the variable is ENABLE_PEDANTIC; is_enabled never raises, whatever the
+   value; it answers True for unset and "1", False for "0"; enable/disable assign "1"/"0" *)
+Theorem C09_switch_logic :
+  Gen.Env.env_var_name = "ENABLE_PEDANTIC"%string /\
+  (forall e, exists b, is_enabled M e = Ok b) /\
+  is_enabled M Unset = Ok true /\ is_enabled M (Val "1") = Ok true /\ is_enabled M (Val "0") = Ok false /\
+  (forall e, run_assign (sm_enable M) e = Val "1") /\ (forall e, run_assign (sm_disable M) e = Val "0").
+Proof.
+  split; [vm_compute; reflexivity|]. split; [intros [|v]; vm_compute; eauto|].
+  repeat split; vm_compute; reflexivity.
+Qed.
+Print Assumptions C09_switch_logic.
+
+(* the seven decorators of the statement, and each of them reaches a first-statement guard *)
+Theorem C09_seven_decorators :
+  map dname all_dkinds = ["pedantic"; "pedantic_require_docstring"; "pedantic_class"; "pedantic_class_require_docstring";
+                          "trace_class"; "timer_class"; "for_all_methods"]%string /\
+  (forall d, In d all_dkinds) /\ (forall d, honours M d = true) /\ (forall d, wraps M d = true).
+Proof.
+  destruct (good_parts M C09_model_good) as (_ & _ & _ & HON & _ & W & _).
+  split; [reflexivity|]. split; [intros []; simpl; auto 10|]. split; assumption.
+Qed.
+Print Assumptions C09_seven_decorators.
+
 (* cross-reference obligation, stated on the regenerated list: every reference to the switch in
    the package is inside env_var_logic.py, an import of the names, a read of another
-   (caller-named) variable, or one of exactly two guards, which are the first statement of
-   pedantic.decorator and of for_all_methods.decorate *)
+   (caller-named) variable, a use of a decorator inside one of the exact-shape shortcuts, or one of
+   exactly two guards, which are the first statement of pedantic.decorator and of
+   for_all_methods.decorate; hence no wrapper reads the switch when it is called *)
 Theorem C09_cross_reference :
-  forallb ref_allowed Gen.EnvSwitch.env_refs = true /\
-  map (fun r => (er_scope r, er_phase r)) (filter is_guard_ref Gen.EnvSwitch.env_refs) =
+  forallb ref_allowed Gen.Env.env_refs = true /\
+  map (fun r => (er_scope r, er_phase r)) (filter is_guard_ref Gen.Env.env_refs) =
     [("for_all_methods.decorate", PhDecoration SiteForAll); ("pedantic.decorator", PhDecoration SitePedantic)]%string /\
+  filter (fun r => reads_switch (er_kind r) && negb (is_guard_ref r) &&
+                   match er_phase r with PhEnvLogic => false | _ => true end &&
+                   match er_kind r with RDecoUse => negb (er_guard r) | _ => true end) Gen.Env.env_refs = [] /\
   forall d, call_reads M d = false.
-Proof. split; [vm_compute; reflexivity|]. split; [vm_compute; reflexivity|]. exact (no_call_reads M C09_model_good). Qed.
+Proof.
+  split; [vm_compute; reflexivity|]. split; [vm_compute; reflexivity|]. split; [vm_compute; reflexivity|].
+  exact (no_call_reads M C09_model_good).
+Qed.
 Print Assumptions C09_cross_reference.
 
 (* for env in {unset,"0","1"}: all seven decorators return the very object iff the switch is "0",
-   and the object they return behaves accordingly (no checks / checks) *)
+   and the object they return behaves accordingly (no checks / checks) under every later environment *)
 Theorem C09_identity_iff_disabled : forall d x s, in_domain (env s) = true ->
   let (s', o) := step M s (ODecorate d x) in
   (o = ODeco true <-> env s = Val "0"%string) /\
@@ -43,11 +82,11 @@ Proof.
   intros d x s Hd. rewrite (decorate_obs M C09_model_good s d x Hd).
   assert (Hn : forall o, nth_error (objs s ++ [o]) (List.length (objs s)) = Some o).
   { intro o. rewrite nth_error_app2, Nat.sub_diag by auto. reflexivity. }
-  apply in_domain_cases in Hd. destruct Hd as [H|[H|[H|[]]]]; rewrite <- H; simpl;
+  apply in_domain_cases in Hd. destruct Hd as [H|[H|[H|[]]]]; rewrite <- H; cbn [spec_enabled String.eqb Ascii.eqb Bool.eqb objs env];
     repeat split; intros;
     try match goal with D : _ \/ _ |- _ => destruct D end;
     try discriminate; try reflexivity; auto; try apply Hn;
-    simpl; now rewrite (no_call_reads M C09_model_good).
+    apply (wrapped_checked M C09_model_good).
 Qed.
 Print Assumptions C09_identity_iff_disabled.
 
@@ -65,24 +104,27 @@ Print Assumptions C09_identity_after_toggle.
 
 (* the switch is read only at decoration: whatever finite history of setenv (ANY value) / unsetenv /
    enable / disable / further decorations / calls follows, calling an already decorated object
-   behaves the same *)
+   behaves the same; s is ANY state (any value of the variable, any earlier history) *)
 Theorem C09_read_only_at_decoration : forall s d x h1 h2,
   let s0 := fst (step M s (ODecorate d x)) in
   let i := List.length (objs s) in
   snd (step M (fst (run_ops M s0 h1)) (OCall i)) = snd (step M (fst (run_ops M s0 h2)) (OCall i)).
 Proof.
   intros s d x h1 h2 s0 i.
-  destruct (nth_error (objs s0) i) as [o|] eqn:E.
-  - exact (read_only_at_decoration M C09_model_good s0 i o h1 h2 E).
-  - (* the decoration itself raised: impossible for the regenerated is_enabled, which never raises *)
-    exfalso. subst s0 i. simpl in E. destruct (good_parts M C09_model_good) as (_ & _ & _ & HON & _).
-    rewrite HON in E.
-    assert (T : forall e, exists b, is_enabled M e = Ok b).
-    { intros [|v]; vm_compute; eauto. }
-    destruct (T (env s)) as [b Hb]. rewrite Hb in E.
-    destruct b; simpl in E; rewrite nth_error_app2, Nat.sub_diag in E by auto; discriminate.
+  (* the decoration cannot have raised: the regenerated is_enabled never raises *)
+  destruct (decorate_appends M (proj1 (proj2 C09_switch_logic)) s d x) as [o E].
+  exact (read_only_at_decoration M C09_model_good s0 i o h1 h2 E).
 Qed.
 Print Assumptions C09_read_only_at_decoration.
+
+(* both halves in one statement: decorate (any of the seven) in ANY state whose variable is unset/"0"/"1", let ANY finite
+   history follow (setenv to arbitrary values included), then call the decorated object: it is checked iff the switch was
+   unset or "1" when the decorator was applied, plain iff it was "0" *)
+Theorem C09_behaviour_fixed_at_decoration : forall s d x h, in_domain (env s) = true ->
+  snd (step M (fst (run_ops M (fst (step M s (ODecorate d x))) h)) (OCall (List.length (objs s)))) =
+  OCalled (if spec_enabled (env s) then Checked else Plain).
+Proof. exact (behaviour_fixed M C09_model_good). Qed.
+Print Assumptions C09_behaviour_fixed_at_decoration.
 
 (* all observations of every in-domain history are the ones the statement demands *)
 Theorem C09_model_refines_spec : forall e h, in_domain e = true -> forallb op_in_domain h = true ->
@@ -99,8 +141,7 @@ Theorem C09_enable_disable_roundtrip : forall e,
   in_domain (en e) = true /\ in_domain (di e) = true /\
   (in_domain e = true -> is_enabled M e = Ok (spec_enabled e)).
 Proof.
-  intro e. repeat split; try (vm_compute; reflexivity).
-  intro H. exact (proj1 (good_parts M C09_model_good) e H).
+  intro e. repeat split; try (intro H; exact (proj1 (good_parts M C09_model_good) e H)); vm_compute; reflexivity.
 Qed.
 Print Assumptions C09_enable_disable_roundtrip.
 
@@ -111,4 +152,12 @@ Example C09_example :
   forallb op_in_domain h = true /\
   snd (run_ops M {| env := Unset; objs := [] |} h) =
     [ONone; ODeco true; ONone; OCalled Plain; ODeco false; ONone; OCalled Checked; OCalled Plain].
+Proof. split; vm_compute; reflexivity. Qed.
+
+(* the hypotheses in_domain / op_in_domain are satisfiable by every value of the stated domain and by every operation
+   that stays in it; other values are outside the statement (nothing is demanded of them here) *)
+Example C09_domain :
+  map in_domain [Unset; Val "0"; Val "1"; Val "true"; Val ""]%string = [true; true; true; false; false] /\
+  map op_in_domain [OSetenv "0"; OSetenv "1"; OUnsetenv; OEnable; ODisable; ODecorate DForAllMethods 0; OCall 3; OSetenv "2"]%string
+    = [true; true; true; true; true; true; true; false].
 Proof. split; vm_compute; reflexivity. Qed.
